@@ -16,7 +16,7 @@ from pathlib import Path
 
 from bounded import NATIVE_WITNESS, standin
 
-ELEMS = ["1", "0+2", '"""a\nb"""', "[3,\n  4]", "f(5)", "'s'"]
+ELEMS = ["1", "0+2", '"""a\nb"""', "[3,\n  4]", "f(5)", "'s'", "(6)", "((7) )"]
 LAYOUTS = {
     "single": lambda es: ", ".join(es),
     "trailing": lambda es: ", ".join(es) + ("," if es else ""),
